@@ -698,9 +698,16 @@ def r6_7(ctx):
         }
         for what, must in (("event.set()", rel), ("removal from activating_mailboxes", dele)):
             ctx.require(must, f"get_mailbox: {what} not found")
-            flags = {s_.targets[0].id for s_ in body_walk(fi.node) if isinstance(s_, ast.Assign) and len(s_.targets) == 1 and isinstance(s_.targets[0], ast.Name) and isinstance(s_.value, ast.Constant) and isinstance(s_.value.value, bool)}
+            # flag locals: assigned from bool constants, or computed once from a test (`creating = name not in ...`)
+            flags = {
+                s_.targets[0].id for s_ in body_walk(fi.node)
+                if isinstance(s_, ast.Assign) and len(s_.targets) == 1 and isinstance(s_.targets[0], ast.Name)
+                and ((isinstance(s_.value, ast.Constant) and isinstance(s_.value.value, bool)) or isinstance(s_.value, (ast.Compare, ast.BoolOp)) or (isinstance(s_.value, ast.UnaryOp) and isinstance(s_.value.op, ast.Not)))
+            }
+            # the branch conditions under which the registration runs hold when the search starts there
+            init = flow.facts_at(g, nid, flow.name_classify(flags), labels=flow.ALL, kills=flow.name_kills(g, flags), gens=flow.const_bool_gens(g))
             hit = flow.feasible_paths_exist(
-                g, nid, {g.exit, g.raise_exit}, flow.name_classify(flags), labels=flow.ALL,
+                g, nid, {g.exit, g.raise_exit}, flow.name_classify(flags), initial=init, labels=flow.ALL,
                 avoid=lambda n: n in must, gens=flow.const_bool_gens(g), kills=flow.name_kills(g, flags),
             )
             ctx.paths_explored += 1
